@@ -1,7 +1,6 @@
 package plush
 
 import (
-	"errors"
 	"fmt"
 	"unsafe"
 
@@ -69,8 +68,7 @@ func (c *compiler) compile() (string, error) {
 			if c.curStmt != nil {
 				s = c.curStmt
 			}
-			var be *blockError
-			if errors.As(err, &be) {
+			if be := blockErrorOf(err, c.program); be != nil {
 				s = be.stmt
 			}
 			return "", fmt.Errorf("line %d: %w", s.T().LineNumber, err)
